@@ -203,8 +203,9 @@ class Universe:
         if r is None:
             self.na.add(path)
             return None
-        txs, miner, dt = r
-        b = assemble(parent, txs, miner, parent.ts + dt)
+        txs, miner, dt = r[:3]
+        kw = r[3] if len(r) > 3 else {}
+        b = assemble(parent, txs, miner, parent.ts + dt, **kw)
         n = Node(b, parent, path=path)
         self.nodes[path] = n
         return n
